@@ -34,6 +34,10 @@ import SharkVerif.Lemmas.McBias
 import SharkVerif.Lemmas.McSolveStuck
 import SharkVerif.Lemmas.McDecision
 import SharkVerif.Lemmas.McSimplexRenum
+import SharkVerif.Lemmas.McSimplexGap
+import SharkVerif.Lemmas.McLinearMcSum
+import SharkVerif.Lemmas.McLinearEpoch
+import SharkVerif.Lemmas.McRprop
 namespace SharkVerif.C16
 open SharkVerif.Mc SharkVerif.Gen.McTables SharkVerif.McTables
 
@@ -492,6 +496,50 @@ theorem simplex_stop_is_kkt (s : McSx Rat) (h : SxInv s) (eps : Rat) (maxIter : 
     (solveX s eps maxIter).s.b.activeVar = (solveX s eps maxIter).s.b.P * (solveX s eps maxIter).s.b.n ∧
     KKTsx (solveX s eps maxIter).s eps := solveX_stop_kkt s h eps maxIter hstop
 
+/-- **stop ⇒ KKT(eps) ⇒ objective gap for the simplex-constrained dual, end to end for the generated problems**
+(CS, ATM, ADM, MMR; `Q = M ⊗ K` with a Gram kernel matrix): if `QpSolver<QpMcSimplexDecomp>::solve` reports
+`QpAccuracyReached`, then for every `b ≥ 0` with `Σ_p b(i,p) ≤ C` (in the numbering of the final state, a renumbering
+of the original dual by `simplex_run_renumbers`)
+`D(b) − D(α) ≤ n·(eps·(2C + 1e-14) + 1e-14·C·G)`, `G ≥ 0` any bound of the final gradient components.  The second
+term is the price of the code's snapping of `varsum` to `C` (an example counts as "at the bound" while its true sum may
+be `C(1 − 1e-14)`); the multiplier of an example's sum constraint is the smallest gradient of its positive variables. -/
+theorem simplex_generated_near_optimal (f : Family) (c n : Nat) (hc : 2 ≤ c) (C : Rat) (hC : 0 < C)
+    (T : Nat) (φ : Nat → Nat → Rat) (labels : Nat → Nat) (hl : ∀ i < n, labels i < c)
+    (linMat : Nat → Nat → Rat) (eps : Rat) (maxIter : Nat)
+    (hstop : (solveX (simplexProblem f c n C (gramK T φ) labels linMat) eps maxIter).stop = .accuracy)
+    (G : Rat) (hG0 : 0 ≤ G)
+    (hG : ∀ v < (solveX (simplexProblem f c n C (gramK T φ) labels linMat) eps maxIter).s.b.P *
+        (solveX (simplexProblem f c n C (gramK T φ) labels linMat) eps maxIter).s.b.n,
+      (solveX (simplexProblem f c n C (gramK T φ) labels linMat) eps maxIter).s.b.grad v ≤ G)
+    (b : Nat → Rat) (hb : FeasibleSx (solveX (simplexProblem f c n C (gramK T φ) labels linMat) eps maxIter).s b) :
+    dualObj ((solveX (simplexProblem f c n C (gramK T φ) labels linMat) eps maxIter).s.b.P *
+          (solveX (simplexProblem f c n C (gramK T φ) labels linMat) eps maxIter).s.b.n)
+        (solveX (simplexProblem f c n C (gramK T φ) labels linMat) eps maxIter).s.b.lin
+        (solveX (simplexProblem f c n C (gramK T φ) labels linMat) eps maxIter).s.b.Q b
+      - dualObj ((solveX (simplexProblem f c n C (gramK T φ) labels linMat) eps maxIter).s.b.P *
+          (solveX (simplexProblem f c n C (gramK T φ) labels linMat) eps maxIter).s.b.n)
+        (solveX (simplexProblem f c n C (gramK T φ) labels linMat) eps maxIter).s.b.lin
+        (solveX (simplexProblem f c n C (gramK T φ) labels linMat) eps maxIter).s.b.Q
+        (solveX (simplexProblem f c n C (gramK T φ) labels linMat) eps maxIter).s.b.alpha
+      ≤ (solveX (simplexProblem f c n C (gramK T φ) labels linMat) eps maxIter).s.b.n *
+          (eps * (2 * (solveX (simplexProblem f c n C (gramK T φ) labels linMat) eps maxIter).s.b.C + (1.e-14 : Rat))
+            + (1.e-14 : Rat) * (solveX (simplexProblem f c n C (gramK T φ) labels linMat) eps maxIter).s.b.C * G) :=
+  solveX_stop_near_optimal _ (simplex_invariants_initially f c n hc C (le_of_lt hC) _ (gramK_symm T φ) labels hl linMat)
+    (generated_Q_psd f c n hc C T φ labels hl linMat) hC eps maxIter hstop G hG0 hG b hb
+
+/-- the abstract statement: any state with the invariants, all variables active and `checkKKT`-style KKT(eps) -/
+theorem simplex_kkt_eps_near_optimal (s : McSx Rat) (h : SxInv s) (hall : s.b.activeVar = s.b.P * s.b.n)
+    (hpsd : PSD (s.b.P * s.b.n) s.b.Q) (hC : 0 < s.b.C) (eps : Rat) (heps : 0 ≤ eps) (hk : KKTsx s eps)
+    (G : Rat) (hG0 : 0 ≤ G) (hG : ∀ v < s.b.P * s.b.n, s.b.grad v ≤ G) (b : Nat → Rat) (hb : FeasibleSx s b) :
+    dualObj (s.b.P * s.b.n) s.b.lin s.b.Q b - dualObj (s.b.P * s.b.n) s.b.lin s.b.Q s.b.alpha
+      ≤ s.b.n * (eps * (2 * s.b.C + (1.e-14 : Rat)) + (1.e-14 : Rat) * s.b.C * G) :=
+  simplex_kkt_gap s h hall hpsd hC eps heps hk G hG0 hG b hb
+
+/-- non-vacuity of `FeasibleSx` / `KKTsx`: the fresh MMR problem with one example (`α = 0`, gradient `1`) is 2-KKT and
+`b = 0` is feasible -/
+example : FeasibleSx (simplexProblem .MMR 2 1 1 (fun _ _ => 1) (fun _ => 0) (fun _ _ => 1)) (fun _ => 0) :=
+  ⟨fun _ _ => le_refl _, fun e _ => by simp [simplexProblem, McSx.init, McBox.init, Family.P]⟩
+
 /-- non-vacuity: the invariant is satisfiable with a non-trivial state (fresh CS problem, 3 classes, 2 examples) -/
 example : SxInv (simplexProblem .WWCS 3 2 1 (fun i j => if i = j then 1 else 0) (fun i => i) (fun _ _ => 1)) :=
   simplex_invariants_initially .WWCS 3 2 (by omega) 1 (by norm_num) _ (by intro i j; by_cases h : i = j <;> simp [h, eq_comm])
@@ -642,5 +690,102 @@ example : Feasible 1 1 (fun _ => (0 : Rat)) ∧
   have : v = 0 := by omega
   subst this
   simp [dualGrad, problem, McBox.init]
+
+/-! ## 11. The sum-constrained linear solvers `QpMcLinear{CS,ATM,ADM}` and the epoch loop of `QpMcLinear::solve` -/
+
+/-- **mc_linear_invariants for CS, ATM, ADM — PARTIAL** (hypothesis `SweepGuard`): along every schedule of per-example
+steps from the zero start, for every class `c < classes`: `w_c = Σ_i coef(F, y_i, α_i)_c · x_i`, `α(i,c) ≥ 0`, the extra
+column holds the row sum, the row sum is `≤ C`, and `α(i, y_i) = 0` for the formulations that skip the true class.
+No statement about the returned gain (it is not the objective change for these classes, and not part of the property).
+`SweepGuard` only excludes the sentinel case of the working-set selection: `mlUpDown` starts `kkt_down` at `1e100`, so a
+positive variable whose gradient is `≥ 1e100` is never recorded; then `idx_down` keeps its default `0`, may coincide
+with `idx_up`, and the two assignments of the pair step no longer cancel — the invariant really fails in the exact model
+there.  `pairGuard_of_bounded`: gradients `< 1e100` (i.e. `|1 ± ⟨w_c,x_i⟩| < 1e100`) imply the guard. -/
+theorem mc_linear_sum_invariants_partial (F : McForm) (hF : F.simplex = true) (D : MlData Rat)
+    (hy : ∀ i, D.y i < D.classes) (hC : 0 ≤ D.C) (heps : 0 < D.eps)
+    (sched : List Nat) (hs : ∀ i ∈ sched, i < D.n) (hg : SweepGuard F D mlInit sched) :
+    (∀ c, c < D.classes → ∀ k, (mlSweep F D mlInit sched).w c k
+      = ∑ i ∈ Finset.range D.n, mlStepVec F D.classes (D.y i) ((mlSweep F D mlInit sched).alpha i) c * D.x i k) ∧
+    ∀ i, (∀ c, c < D.classes → 0 ≤ (mlSweep F D mlInit sched).alpha i c) ∧
+      (mlSweep F D mlInit sched).alpha i D.classes = ∑ c ∈ Finset.range D.classes, (mlSweep F D mlInit sched).alpha i c ∧
+      (mlSweep F D mlInit sched).alpha i D.classes ≤ D.C ∧
+      (F.skipY = true → (mlSweep F D mlInit sched).alpha i (D.y i) = 0) :=
+  ⟨mc_linear_w_inv_sum_partial F hF D hy hC heps sched hs hg,
+    fun i => mc_linear_feasible_sum_partial F hF D hy hC heps sched hs hg i⟩
+
+/-- non-vacuity of `SweepGuard`: it holds along every schedule for a coarse accuracy (no step is taken) -/
+example (F : McForm) (hF : F.simplex = true) (D : MlData Rat) (hC : 0 < D.C) (heps : 10 < D.eps) (sched : List Nat) :
+    SweepGuard F D mlInit sched := sweepGuard_coarse F hF D hC heps sched mlInit zeroState_init
+
+/-- **uniform_sweep_visits_all**: with all preferences 1 and `prefsum = ell` (the first epoch, and the epoch after the
+`canstop` reset) the ACF schedule arithmetic of `QpMcLinear::solve` writes exactly `0,1,…,ell−1`, whatever the random
+draws (`0 ≤ u`); hence after the shuffle (any permutation) every example is visited exactly once. -/
+theorem epoch_uniform_sweep_visits_all (expF : Rat → Rat) (ell : Nat) (pref u : Nat → Rat) (hu : ∀ i, 0 ≤ u i)
+    (h1 : ∀ i, i < ell → pref i = 1) (old sh : List Nat) (hold : old.length = ell)
+    (hperm : sh.Perm (acfBuffer old (acfBuild (ratOps expF) ell pref u (ell : Rat)))) :
+    (acfBuild (ratOps expF) ell pref u (ell : Rat)).written = List.range ell ∧ ∀ i, i < ell → sh.count i = 1 :=
+  ⟨(uniform_sweep_visits_all expF ell pref u hu h1).1, uniform_sweep_count expF ell pref u hu h1 old sh hold hperm⟩
+
+/-- **the schedule loop never writes past its buffer** (`schedule[pos] = i; pos++` has no bound check; the C++ asserts
+`pos == ell` in debug mode only): `pos ≤ ell` for ARBITRARY preferences, normalisation constant and admissible draws,
+and `pos = ell` when the preferences are positive and `prefsum` is their sum (which holds at every epoch start in exact
+arithmetic: `epEpoch_prefsum`, `epStopRule_prefsum`; `acf_short_of_psum_drift` shows that a drifted `prefsum` — as in
+floating point — can leave `pos = ell − 1`, i.e. a stale but valid last entry, with probability ~2⁻⁵³ per epoch). -/
+theorem epoch_schedule_fits (expF : Rat → Rat) (ell : Nat) (pref u : Nat → Rat) (hu : ∀ i, 0 ≤ u i) (psum0 : Rat) (k : Nat) :
+    (acfPrefix (ratOps expF) ell pref u psum0 k).pos ≤ ell ∧
+    (∀ x ∈ (acfBuild (ratOps expF) ell pref u psum0).written, x < ell) ∧
+    ((∀ i, i < ell → 0 < pref i) → (acfBuild (ratOps expF) ell pref u (∑ j ∈ Finset.range ell, pref j)).pos = ell) :=
+  ⟨(acf_pos_le expF ell pref u hu psum0 k).1, acf_written_lt expF ell pref u hu psum0,
+    fun hp => (acf_length_eq expF ell pref u hu hp).1⟩
+
+/-- **linear_stop_weak**: what `QpAccuracyReached` of the linear multi-class solvers means — the last epoch was run with
+`canstop = true`, all preferences 1 (a full sweep: its schedule is a permutation of all examples) and every example had a
+KKT violation `< eps` AT THE TIME OF ITS VISIT; nothing follows about the violations at the end of the epoch (the
+harness reports the final violation as `#finalkkt`: ≥ eps in about 0.4 % of the accuracy stops). -/
+theorem epoch_linear_stop_weak (F : McForm) (D : MlData Rat) (expF : Rat → Rat) (maxIter : Nat)
+    (trace : List ((Nat → Rat) × List Nat)) (s : EpState Rat) (hs : CanstopInv D s)
+    (hstop : (epSolve F D (ratOps expF) maxIter trace s).stop = some .accuracy) :
+    (epSolve F D (ratOps expF) maxIter trace s).lastStart.canstop = true ∧
+    (∀ i, (epSolve F D (ratOps expF) maxIter trace s).lastStart.inner.pref i = 1) ∧
+    (epSolve F D (ratOps expF) maxIter trace s).final.inner.maxViol < D.eps :=
+  let h := linear_stop_weak F D expF maxIter trace s hs hstop
+  ⟨h.1, h.2.1, h.2.2.2.2.1⟩
+
+/-! ## 12. The Rprop rule of `BiasSolver::solve` as a state machine (Model/McBias.lean: `biasSolve`) -/
+
+/-- **every run of the modelled `BiasSolver::solve`** on the problem of any family / class count — the Rprop rule with its
+step-size adaptation, the optional sum-to-zero projection, the inner solves with `unshrink`, both loops with any fuel —
+ends in a state that satisfies all invariants, whose linear part is `linear(i,p) − ν·bias` for the bias the machine
+reports (started at 0); the step sizes stay positive and, with `sumToZero`, the bias stays in the sum-to-zero subspace
+(`rprop_step_sizes_positive`, `rprop_bias_sum_zero`). -/
+theorem rprop_bias_solver_consistent (f : Family) (c n : Nat) (hc : 2 ≤ c) (C : Rat) (hC : 0 ≤ C)
+    (K : Nat → Nat → Rat) (hK : ∀ i j, K i j = K j i) (labels : Nat → Nat) (hl : ∀ i < n, labels i < c)
+    (linMat : Nat → Nat → Rat) (classes : Nat) (stz : Bool) (eps : Rat) (maxIter outerFuel innerFuel : Nat) :
+    FullInv (biasSolve id id (problem f c n C K labels linMat) (fun r => (f.nu c).row r) classes stz (fun _ => 0)
+      eps maxIter outerFuel innerFuel).s ∧
+    LinInv (biasSolve id id (problem f c n C K labels linMat) (fun r => (f.nu c).row r) classes stz (fun _ => 0)
+      eps maxIter outerFuel innerFuel).s
+      (fun i p => linMat i p + biasDelta (fun r => (f.nu c).row r) (f.P c) labels
+        (fun k => (biasSolve id id (problem f c n C K labels linMat) (fun r => (f.nu c).row r) classes stz (fun _ => 0)
+          eps maxIter outerFuel innerFuel).r.bias k - 0) i p) := by
+  have h0 : BiasInv (fun r => (f.nu c).row r) (f.P c) labels linMat (fun _ => 0) (problem f c n C K labels linMat)
+      { bias := fun _ => 0, stepsize := fun _ => (0.01 : Rat), prev := fun _ => (0.0 : Rat), step := fun _ => (0.0 : Rat) } := by
+    refine ⟨invariants_initially f c n hc C hC K hK labels hl linMat, rfl, rfl, ?_⟩
+    intro v hv
+    have : (fun k : Nat => ((0 : Rat) - 0)) = fun _ => 0 := by funext k; ring
+    show (problem f c n C K labels linMat).lin v = linMat _ _ + biasDelta _ (f.P c) labels (fun k => (0 : Rat) - 0) _ _
+    rw [this, biasDelta_zero, add_zero]
+    exact linInv_init c (f.P c) n C _ K labels linMat v hv
+  have h := biasSolve_consistent (fun r => (f.nu c).row r) classes stz eps maxIter innerFuel (f.P c) labels linMat
+    (fun _ => 0) outerFuel _ _ 0 h0
+  exact ⟨h.1, h.2.2.2⟩
+
+theorem rprop_step_sizes_positive (s : McBox Rat) (nu : Nat → Row Rat) (classes : Nat) (stz : Bool) (r : RpropSt Rat)
+    (h : ∀ c, 0 < r.stepsize c) : ∀ c, 0 < (rpropPass s nu classes stz r).2.stepsize c :=
+  rpropPass_stepsize_pos s nu classes stz r h
+
+theorem rprop_bias_sum_zero (s : McBox Rat) (nu : Nat → Row Rat) (classes : Nat) (hc : 0 < classes) (r : RpropSt Rat) :
+    ∑ c ∈ Finset.range classes, (rpropPass s nu classes true r).2.bias c = ∑ c ∈ Finset.range classes, r.bias c :=
+  rpropPass_bias_sum s nu classes hc r
 
 end SharkVerif.C16
